@@ -228,6 +228,23 @@ func CasesFile(hs []History) string {
 	return sb.String()
 }
 
+// WriteCases writes the histories as cases.v files of at most 40 histories
+// each (coqc parses very large terms slowly).
+func WriteCases(c *vh.Ctx, hs []History) {
+	const chunk = 40
+	for i, n := 0, 0; i < len(hs); i, n = i+chunk, n+1 {
+		end := i + chunk
+		if end > len(hs) {
+			end = len(hs)
+		}
+		name := "cases.v"
+		if n > 0 {
+			name = fmt.Sprintf("cases%d.v", n)
+		}
+		c.WriteCasesV(name, CasesFile(hs[i:end]))
+	}
+}
+
 // Report files the outcome of one history with the vh context: the case
 // record, histogram counts, and monitor failures.
 func Report(c *vh.Ctx, out *Outcome) {
